@@ -175,7 +175,7 @@ def audit_table(table, name='table'):
             if key is None and not idx._index_none_values:
                 continue
             keys = key if (isinstance(key, list) and type(idx).__name__ == 'IndexDefinition1n') else [key]
-            for k in keys:
+            for k in dict.fromkeys(keys):  # a scan finds an object once per key, also if its list names the key twice
                 expected.setdefault(k, []).append(id(o))
         actual = {k: [id(o) for o in v] for k, v in dict.items(idx)}
         for k in set(expected) | set(actual):
